@@ -75,6 +75,14 @@ CHECKS = {
             'below the deepest possible point. Objects::Surface::local_value is compared with a long-double scan of all its triangles for every value-point layout of the alphabet, also through the longitude alias.',
             'The un-accelerated evaluation is the same code with infinite bounds, so a defect shared by both paths is not visible here (geometry itself is C04/C06).',
             'DESIGN.md section 3 C07'),
+    'C13': ('exploration', 'E1',
+            'bounded exhaustive enumeration of world families (sane and schema-valid degenerate parameters) x points placed on the degenerate loci x request lists, executed in the ASan+UBSan build with a finiteness oracle',
+            'Every world of four families (rich worlds; slabs/faults over 12 segment tables incl. zero length/thickness, dips 0/180 and overturning arcs x thermal models incl. zero velocities; area '
+            'features and plumes with degenerate geometry; degenerate cross sections) is queried at polygon vertices and edge midpoints, trench points and ends, the slab tip, joints and arc centres, depth 0 '
+            'and the min/max depths, the poles, the +-180 meridian, the centre of the sphere, z+depth=0, plume axis and rim, with every single-property request and three batched ones, in 3-D and 2-D. '
+            'Every value must be finite or a std::exception thrown; a sanitizer report, signal or watchdog expiry is a violation.',
+            'Only the listed families and loci are covered; worlds rejected by the constructor are left to C12.',
+            'DESIGN.md section 3 C13'),
 }
 NOT_YET = {}
 
